@@ -1156,31 +1156,14 @@ func (a *atoms) gField(t *sysl.Type) string {
 	return "FOther"
 }
 
-// enumerators in an order the Go map iteration may have had: by name, and of several enumerators with one value the
-// one the diagram printed (the last `valToName[val] = name`) last
-func enumOrder(items map[string]int64, printed []string) []string {
+// enumerators in sort.Strings order of their names (DrawEnum sorts by (value, name); the model sorts stably by value)
+func enumOrder(items map[string]int64, _ []string) []string {
 	var ns []string
 	for n := range items {
 		ns = append(ns, n)
 	}
 	sort.Strings(ns)
-	won := map[string]bool{}
-	for _, p := range printed {
-		won[p] = true
-	}
-	var first, last []string
-	byVal := map[int64]int{}
-	for _, v := range items {
-		byVal[v]++
-	}
-	for _, n := range ns {
-		if byVal[items[n]] > 1 && won[n] {
-			last = append(last, n)
-		} else {
-			first = append(first, n)
-		}
-	}
-	return append(first, last...)
+	return ns
 }
 
 func (a *atoms) gModule(m *sysl.Module, fieldID func(string) int, printedItems map[string][]string) string {
@@ -1549,7 +1532,7 @@ Definition WE (o:positive) (m:bool) (st:list wstmt) := {| ep_out := o; ep_match 
 					continue
 				}
 				dk := strings.ReplaceAll(w.Output, "%(epname)", cv.last)
-				if od.res == nil || normEnum(od.res[dk]) != normEnum(o.res[k]) {
+				if od.res == nil || od.res[dk] != o.res[k] {
 					c.Fail("view-entry-modes-differ", "the per-application view of "+cv.last+" differs between --direct and project manner", rp)
 				}
 				c.Hist("view:per-app-both-entry-modes")
@@ -1813,27 +1796,9 @@ func cliCompare(c *common.Ctx, bin, text string, w *wspec, res map[string]string
 		return
 	}
 	for k, v := range want {
-		if normEnum(got[k]) != normEnum(v) {
+		if got[k] != v {
 			c.Fail("cli-output-differs", "sysl datamodel wrote a different text for "+k+" than GenerateDataModels returns", rp)
 			return
 		}
 	}
-}
-
-// two runs may print different names for enumerators with one value (map order): compare the rest
-func normEnum(s string) string {
-	var out []string
-	in := false
-	for _, ln := range strings.Split(s, "\n") {
-		switch {
-		case strings.HasPrefix(ln, "enum "):
-			in = true
-		case ln == "}":
-			in = false
-		case in:
-			continue
-		}
-		out = append(out, ln)
-	}
-	return strings.Join(out, "\n")
 }
